@@ -155,6 +155,7 @@ class Partner:
         self.down_words = deque()
         self.post_ops = deque()
         self.up_at = None
+        self.post_cmds = 0                # link commands seen since re-entry (C38: strobes only after the advertisement)
         # logs
         self.log = []                     # per cycle dict of applied inputs
         self.sent_headers = []            # info dicts (+ 'end' cycle of DW3)
@@ -176,6 +177,7 @@ class Partner:
                 if dec is None:
                     return
                 cmd, sub = dec
+                self.post_cmds += 1
                 if cmd == R.LGOOD:
                     if not self.adv_seen:
                         self.adv_seen = True
@@ -308,6 +310,7 @@ class Partner:
                     self.wq.clear()
                     self.idle_left = 0
                     self.post_ops = deque(d["post"])
+                    self.post_cmds = 0
                     self.phase_done = False
                     self.ack_wait = 0
                     self.stall = 0
@@ -348,7 +351,8 @@ class Partner:
             self.retry_strobe_at = None
         upd.update(sv=word[0], sd=word[1], sc=word[2])
         # ---- background strobes (legal in U0 only)
-        if self.strobe_wait is not None and self.phase in ("up", "post") and self.enable:
+        if self.strobe_wait is not None and self.enable and (
+                self.phase == "up" or (self.phase == "post" and self.post_cmds >= 5)):
             if self.strobe_wait == 0:
                 _, kind = self.strobes.popleft()
                 upd[{0: "ka", 1: "retry_req", 2: "rej"}[kind]] = 1
@@ -399,22 +403,24 @@ def source_commands(log, trace, t0=0, t1=None):
         if log[t]["sready"]:
             if state == "idle":
                 if w != R.LCSTART:
-                    return None, (t, f"word ({w[0]:#x},{w[1]:#x}) transmitted in cycle {t} where LCSTART was expected")
+                    return (None, None), (t, f"word ({w[0]:#x},{w[1]:#x}) transmitted in cycle {t} where LCSTART was expected")
                 state = "cmd"
                 start = pres
             else:
                 dec = R.lc_decode(*w)
                 if dec is None:
-                    return None, (t, f"malformed link command word ({w[0]:#x},{w[1]:#x}) in cycle {t}")
+                    return (None, None), (t, f"malformed link command word ({w[0]:#x},{w[1]:#x}) in cycle {t}")
                 cmds.append(dict(start=start, end=t, cmd=dec[0], sub=dec[1]))
                 state = "idle"
             pres = None
     return (cmds, state), None
 
 
-def sink_headers(log):
-    """Reference decode of what was driven into the DUT: header packets with 'end' cycle (cycle of DW3)."""
-    idx = [i for i, l in enumerate(log) if l["sv"]]
+def sink_headers(log, t0=0, t1=None):
+    """Reference decode of what was driven into the DUT in cycles [t0, t1): header packets with 'end' cycle (cycle
+    of DW3)."""
+    t1 = len(log) if t1 is None else t1
+    idx = [i for i in range(t0, t1) if log[i]["sv"]]
     ev = R.parse_stream([(log[i]["sd"], log[i]["sc"]) for i in idx])
     out = []
     for e in ev:
